@@ -208,7 +208,17 @@ class Impl:
                 self.feats[cid], self.ops[cid] = [], []
                 return 0, [cid]
             if k == 'addsuper':
-                self.classes[op[1]].eSuperTypes.append(self.classes[op[2]])
+                # optional op[3]: the public path used; all of them add the super type at the END (model: AddSuper)
+                coll, x = self.classes[op[1]].eSuperTypes, self.classes[op[2]]
+                via = op[3] if len(op) > 3 else 'append'
+                if via == 'insert':
+                    coll.insert(len(coll), x)
+                elif via == 'extend':
+                    coll.extend([x])
+                elif via == 'iadd':
+                    coll += [x]
+                else:
+                    coll.append(x)
                 return 0, []
             if k == 'rmsuper':
                 self.classes[op[1]].eSuperTypes.remove(self.classes[op[2]])
